@@ -14,7 +14,7 @@
    of C03 (Proofs/ContractProofs.v) are reused: replay only looks at the first structural event of each contract. *)
 Require Import WD.Base.Prelude WD.Base.BStr WD.Model.SubEvents WD.Model.Emitter WD.Model.Fs WD.Model.Reader
                WD.Model.Pipeline WD.Model.Contract WD.Proofs.CoverProofs WD.Proofs.CoverOutProofs WD.Proofs.ReplayProofs WD.Proofs.ReplayOutProofs WD.Proofs.ReplayPipeProofs
-               WD.Proofs.ContractProofs WD.Proofs.TieStrongProofs WD.Proofs.CutsProofs WD.Proofs.CutsReaderProofs WD.Proofs.CutsPipeProofs.
+               WD.Proofs.ContractProofs WD.Proofs.TieStrongProofs WD.Proofs.CutsProofs WD.Proofs.CutsReaderProofs WD.Proofs.CutsShapeProofs WD.Proofs.CutsPipeProofs.
 
 (* ---- the association-list replay has the obvious pointwise meaning, and keeps keys distinct *)
 Theorem C01_replay_semantics : forall recursive root t e, NoDup (map fst t) ->
@@ -352,7 +352,7 @@ Qed.
    what the block with one read delivers - emit_all over group_batch of ALL the reader's events of the block.  A rename
    whose IN_MOVED_FROM was put (delayed) by an earlier read is still paired: _group_events removes it from the queue and
    the pair is put.  rcut = the reader over the cut (C02_cut_reads: same reader state, kernel and events as one read);
-   cuts_ok = the pairing condition on the cut (see C02_cover_block_cuts_partial). *)
+   cuts_ok = the pairing condition on the cut; it holds for every cut of one operation's records (C02_cut_paired). *)
 Theorem C01_tie_cuts : forall P, pc_filter P = None -> forall s o w' cuts r' k' Rs, let C := pc_reader P in
   buffer_idle (p_buf s) -> p_stopped s = false -> (forall id, In id (map fst (p_tbl s)) -> (id < p_next s)%N) ->
   apply_op (p_world s) o = Some w' ->
@@ -365,24 +365,24 @@ Theorem C01_tie_cuts : forall P, pc_filter P = None -> forall s o w' cuts r' k' 
 Proof. exact tie_strong_cuts. Qed.
 Print Assumptions C01_tie_cuts.
 
-(* the replay law over histories of any length of blocks with arbitrary cuts chosen by ct (good_cutter: the cuts of every
-   block add up to the number of queued records and are cut_paired - not yet derived from the kernel model) *)
+(* the replay law over histories of any length of blocks with ARBITRARY cuts chosen by ct (sum_cutter: the cuts of every
+   block add up to the number of queued records - nothing else) *)
 Theorem C01_sequential_pipeline_cuts_partial : forall P ct t0, let C := pc_reader P in
-  c_faults C = [] -> c_fix_moveout C = true -> c_mask C = WATCHDOG_ALL -> pc_filter P = None -> good_cutter P ct ->
+  c_faults C = [] -> c_fix_moveout C = true -> c_mask C = WATCHDOG_ALL -> pc_filter P = None -> sum_cutter P ct ->
   forall ops s hot, PSx P s hot -> ops_x1 C (p_world s) hot ops ->
   TInv (c_recursive C) (c_root C) (replay (c_recursive C) (c_root C) t0 (p_out s)) (p_world s) ->
   exists h s' obs hot', cut_hist P ct s ops h /\ prun P s h [] = Done (s', obs) /\ PSx P s' hot' /\
     TInv (c_recursive C) (c_root C) (replay (c_recursive C) (c_root C) t0 (p_out s')) (p_world s').
-Proof. exact blocks_replay_x_cuts. Qed.
+Proof. exact blocks_replay_cuts. Qed.
 Print Assumptions C01_sequential_pipeline_cuts_partial.
 
 Theorem C01_pipeline_from_start_cuts_partial : forall P ct ops w s0, let C := pc_reader P in
-  c_faults C = [] -> c_fix_moveout C = true -> c_mask C = WATCHDOG_ALL -> pc_filter P = None -> good_cutter P ct -> wf_fs w ->
+  c_faults C = [] -> c_fix_moveout C = true -> c_mask C = WATCHDOG_ALL -> pc_filter P = None -> sum_cutter P ct -> wf_fs w ->
   fisdir (c_root C) (w_fs w) = true -> pinit P w = Some s0 -> ops_x1 C w None ops ->
   exists h s' obs hot', cut_hist P ct s0 ops h /\ prun P s0 h [] = Done (s', obs) /\ PSx P s' hot' /\
     forall x, alookup beqb x (replay (c_recursive C) (c_root C) (tree_of (c_recursive C) (c_root C) w) (p_out s'))
             = alookup beqb x (tree_of (c_recursive C) (c_root C) (p_world s')).
-Proof. exact replay_pipeline_from_start_x_cuts. Qed.
+Proof. exact replay_pipeline_from_start_cuts. Qed.
 Print Assumptions C01_pipeline_from_start_cuts_partial.
 
 (* a rename cut between IN_MOVED_FROM and IN_MOVED_TO, through the pipeline: the same events as with one read *)
